@@ -4,7 +4,7 @@
 From Coq Require Import List NArith ZArith Bool Arith String.
 Import ListNotations.
 Require Import Scan Pos Reader Chunk Comb ParseL PT ParserSafe ParserTerm.
-Require Construct ComposerTotal ParserGrammar.
+Require Construct ComposerTotal ParserGrammar ScanSafe PlainDispatch.
 
 (* KIND C03_forward_never_crashes_inside_buffer : U *)
 (* Reader.forward over any prefix that lies inside the buffer returns normally (no IndexError) *)
@@ -123,6 +123,38 @@ Example C03_composer_nonvacuous :
   Construct.compose_node 8 false (ComposerTotal.mkc [e (Parse.VSeqStart None None true true); e sc] [] []) = Construct.LScan Scan.OutOfFuel.
 Proof. vm_compute. repeat split; eauto. Qed.
 
-(* PARTIAL: scanner_total and error_marks_inside are not proved.  They are
-   decided by the scan/parse/compose/reader correspondence on a malformed-input stream (outcome class incl. the class of any
+(* KIND C03_scanner_never_crashes : U *)
+(* the WHOLE scanner model (all of scanner.py: the token loop, simple keys, indentation, every fetcher and every token scanner), on EVERY text
+   without NUL - a text with NUL never reaches the scanner, the reader rejects it: the run never ends in an IndexError (peek / forward past the end of
+   the buffer, pop from an empty indent stack) or OverflowError; the only Python exception other than ScannerError is the ValueError of int() on a
+   %YAML version of more than 4300 digits (C03_scanner_total_refuted, a known finding).  Proofs/ScanSafe.v: a weakest-precondition calculus over
+   the scanner monad; the invariant is the NUL-sentinel discipline of reader.py (the buffer ends with NUL and holds NUL nowhere else) together
+   with the shape of the indent stack; every peek(k) is justified by k characters known not to be NUL, every loop by characters consumed.
+   The token budget of scan_all (2n+8 requests) is the only fuel that may run out in this statement - see C03_token_request_total for the rest *)
+Theorem C03_scanner_never_crashes : forall text, ~ In Scan.NUL text ->
+  match snd (Scan.scan_all text) with Scan.Crash e => e = Scan.ValueError | _ => True end.
+Proof. exact ScanSafe.scanner_never_crashes. Qed.
+Eval vm_compute in "ASSUME:C03_scanner_never_crashes"%string. Print Assumptions C03_scanner_never_crashes.
+(* KIND C03_token_request_total : U *)
+(* one token request (need_more_tokens / fetch_more_tokens until a token is available) from ANY scanner state that satisfies the invariant: it
+   returns with the invariant, or with a ScannerError (or the ValueError above) - it never crashes and never runs out of its look-ahead fuel *)
+Theorem C03_token_request_total : forall s, ScanSafe.Inv s -> ScanSafe.wp (Scan.fill (S (S (List.length (Scan.rest s))))) (fun _ s' => ScanSafe.Inv s') s.
+Proof. exact ScanSafe.fill_never_crashes. Qed.
+Eval vm_compute in "ASSUME:C03_token_request_total"%string. Print Assumptions C03_token_request_total.
+(* KIND C03_fetch_more_tokens_makes_progress : U *)
+(* every call of fetch_more_tokens consumes at least one character or ends the stream: the scanner cannot loop without reading *)
+Theorem C03_fetch_more_tokens_makes_progress : forall s, ScanSafe.Inv s ->
+  ScanSafe.wp Scan.fetch_more_tokens (fun _ s' => ScanSafe.Inv s' /\ (List.length (Scan.rest s') < List.length (Scan.rest s) \/ Scan.sdone s' = true)) s.
+Proof. exact ScanSafe.wp_fetch_more_tokens. Qed.
+Eval vm_compute in "ASSUME:C03_fetch_more_tokens_makes_progress"%string. Print Assumptions C03_fetch_more_tokens_makes_progress.
+(* KIND C03_scanner_invariant_nonvacuous : F *)
+(* the initial state of every NUL-free text satisfies the invariant; and the sentinel matters: without the final NUL the model does crash *)
+Example C03_scanner_invariant_nonvacuous :
+  ScanSafe.Inv (Scan.init [97; 58; 32; 98]%N) /\
+  snd (Scan.scan_loop 10 [] {| Scan.rest := [97%N]; Scan.index := 0; Scan.line := 0; Scan.col := 0; Scan.sdone := false; Scan.flow_level := 0; Scan.tokens := [];
+                               Scan.taken := 0; Scan.indent := -1; Scan.indents := []; Scan.allow_sk := true; Scan.psk := [] |}) = Scan.Crash Scan.IndexError.
+Proof. split; [apply ScanSafe.init_inv; cbv; intuition discriminate|vm_compute; reflexivity]. Qed.
+
+(* PARTIAL: error_marks_inside (every error mark lies inside the input) and the token budget of scan_all (the number of tokens is at most 2n+8) are
+   not proved.  They are decided by the scan/parse/compose/reader correspondence on a malformed-input stream (outcome class incl. the class of any
    non-YAML exception must agree with the model) and by the direct run on the implementation under a watchdog. *)
